@@ -403,7 +403,7 @@ theorem outstanding_undisturbed (g : Guards) (hg : adequate g = true) (c c' : Co
 request, exceptionally (with the `ProtocolError`), and nothing is raised -/
 theorem bad_response_completes_its_request (g : Guards) (hg : adequate g = true) (c : Conn)
     (code : Int) (msg : Str) (rid : J) (k : Key) (hk : findSingle rid c.out = some k)
-    (hh : rid.hashable = true) :
+    (hh : rid.hashable = true) (hb : rid.isBool = false) :
     receiveResponse g c (.protoError code msg) rid =
       ({ c with out := popSingle rid c.out },
        .ok { completed := some (k, .single (.protoError code msg)) }) := by
@@ -434,8 +434,7 @@ theorem bad_response_completes_its_request (g : Guards) (hg : adequate g = true)
           simp only [findSingle] at hk
           have := ih hk
           simpa [singleKeys] using this
-    rw [hin] at heq
-    simp only [hk] at heq
+    simp only [hb, Bool.false_eq_true, if_false, hin, hk] at heq
     injection heq with _ h2
     cases h2
 
